@@ -1,4 +1,5 @@
 /- L0 facts about the generated ChandelierExit (any `[Scalar F]`): ATR + Minimum + Maximum wiring. -/
+import TaRs.Lemmas.Core.ChandelierExit
 import TaRs.Gen.ChandelierExit
 import TaRs.Lemmas.Minimum
 import TaRs.Lemmas.Maximum
@@ -6,37 +7,6 @@ import TaRs.Lemmas.AverageTrueRange
 namespace TaRs.Gen.ChandelierExit
 open TaRs TaRs.Rs
 variable {F : Type} [Scalar F]
-
-/-- the state `new(period, multiplier)` builds -/
-def fresh (p : Nat) (m : F) : ChandelierExit F :=
-  { atr := AverageTrueRange.fresh p, min := Minimum.fresh p, max := Maximum.fresh p, multiplier := m }
-
-/-- the three components are well-formed and share one period (the struct has no `period` field:
-    `period()` reads it from the ATR) -/
-structure WF (s : ChandelierExit F) : Prop where
-  atr : AverageTrueRange.WF s.atr
-  min : Minimum.WF s.min
-  max : Maximum.WF s.max
-  pmin : s.min.period = s.atr.period_fn
-  pmax : s.max.period = s.atr.period_fn
-
-/-- `new` exactly as generated: `AverageTrueRange::new(period)?`, then `Minimum::new(period)?`, then
-    `Maximum::new(period)?`.  All three return `Err` on 0; the ATR constructor never panics, and
-    for `period ≠ 0` the two windows panic on the same condition (`period * 8 > isize::MAX`,
-    `vec!` capacity overflow), so the order of the calls is not observable. -/
-theorem new_eq (p : Nat) (m : F) :
-    (new p m : Res (ChandelierExit F)) =
-      if p = 0 then .err .InvalidParameter
-      else if p * 8 ≤ isizeMax then .ok (fresh p m) else .panic := by
-  unfold new
-  rw [AverageTrueRange.new_eq, Minimum.new_eq, Maximum.new_eq]
-  by_cases h0 : p = 0
-  · simp [h0, bind, Res.bind]
-  · by_cases h1 : p * 8 ≤ isizeMax <;> simp [h0, h1, bind, Res.bind, fresh]
-
-theorem fresh_wf (p : Nat) (m : F) (hp : 0 < p) (h8 : p * 8 ≤ isizeMax) :
-    WF (fresh p m : ChandelierExit F) :=
-  ⟨AverageTrueRange.fresh_wf p hp, Minimum.fresh_wf p hp h8, Maximum.fresh_wf p hp h8, rfl, rfl⟩
 
 /-- the three components see the SAME bar (ATR first, then Minimum on `low`, then Maximum on `high`);
     `long = highest − ATR·multiplier`, `short = lowest + ATR·multiplier` -/
@@ -66,11 +36,5 @@ theorem nextBar_total (s : ChandelierExit F) (b : Bar F) (h : WF s) :
   refine ⟨_, nextBar_wiring s b atr' a mn' lo mx' hi e1 e2 e3, ⟨w1, w2, w3, ?_, ?_⟩, p1, rfl⟩
   · exact (p2.trans h.pmin).trans p1.symm
   · exact (p3.trans h.pmax).trans p1.symm
-
-omit [Scalar F] in
-theorem period_fn_eq (s : ChandelierExit F) : s.period_fn = s.atr.ema.period := rfl
-
-omit [Scalar F] in
-theorem multiplier_fn_eq (s : ChandelierExit F) : s.multiplier_fn = s.multiplier := rfl
 
 end TaRs.Gen.ChandelierExit
